@@ -184,6 +184,8 @@ def scan_trusted(gen):
             ("external_trait_specification", r"external_trait_specification"), ("admit", r"\badmit\(\)"),
             ("assume", r"\bassume\("), ("external", r"#\[verifier::external\]"),
             ("uninterp spec fn", r"\buninterp\s+spec\s+fn\b"),
+            ("termination NOT proved (exec_allows_no_decreases_clause: partial correctness only)", r"exec_allows_no_decreases_clause"),
+            ("loop_isolation(false)", r"loop_isolation\(false\)"),
             ("trait axiom (proof fn without body)", r"proof fn ax_\w+")]
     out = []
     for name, pat in pats:
